@@ -25,9 +25,9 @@ add("C15", "exploration",
     "DESIGN.md 3/C15")
 
 add("C09", "model_checking",
-    "explicit-state search to a fix-point over the abstract control space (micro address x instruction register), every transition computed by the real trigger_clock_edge() under the full input product; graph analysis (SCCs, longest paths, reachability) on the result",
-    "All control states reachable from reset are expanded under every combination of flags, ALU condition outputs, pending interrupt and (at IR-loading words) all 256 bytes; on the resulting graph: no all-zero word reachable, address always inside the IR[7:4] block, the only fetch-free cycles are the MUL and DIV loops, bounded fetch-free path length, exactly the documented undefined first/second bytes never complete; MUL/DIV loops terminate for all 65 536 pairs concretely.",
-    "Trusted: the hook forces exactly the sequencer-visible latches (verif_force_control); the defined-opcode sets come from REF-ISA.",
+    "explicit-state search to a fix-point over the abstract control space (micro address x instruction register), every transition computed by the real trigger_clock_edge() under the full input product; graph analysis (SCCs, longest paths, reachability) on the result; conformance replay of 10 176 unforced executions (incl. a reset at every edge) against the extracted graph",
+    "All control states reachable from reset are expanded under every combination of flags, ALU condition outputs, pending interrupt and (at IR-loading words) all 256 bytes; on the resulting graph: no all-zero word reachable, address always inside the IR[7:4] block, the only fetch-free cycles are the MUL and DIV loops, bounded fetch-free path length, exactly the documented undefined first/second bytes never complete; MUL/DIV loops terminate for all 65 536 pairs concretely; every transition taken by unforced executions of every first byte / every second byte (with and without a pending interrupt) and after a cpu or master reset at every edge is an edge of that graph, and a reset always yields the power-on control state.",
+    "Trusted: the defined-opcode sets come from REF-ISA. The assumption that the hook forces exactly the sequencer-visible latches is itself checked by the conformance replay (memory-wait edges must leave the control state unchanged; supervision error stops are C05's).",
     "DESIGN.md 3/C09")
 
 add("C05", "model_checking",
@@ -44,7 +44,7 @@ add("C11", "model_checking",
 
 add("C04", "model_checking",
     "deviation-bounded exhaustive schedule enumeration (0, 1, 2 key presses at every clock edge / every ordered pair in a window) of generated programs on the real Machine, each schedule observed edge by edge against the uninterrupted twin",
-    "For every program of the family (prologue + every body sequence up to length 2/3 over 14 instruction kinds x 3 interrupt routines) the key is pressed before every single clock edge 0..T, and at every ordered pair of edges in a 120-edge window; each run must enter the routine exactly as often as the statement requires, push FR (IE set) and a return address that is a boundary state of the uninterrupted run, have IE clear inside, replay the uninterrupted boundary sequence of the main program, and end with identical registers/flags/SP/outputs/RAM (outside the dead stack area).",
+    "For every program of the family (prologue + every body sequence up to length 2/3 over 25 instruction kinds x 3 interrupt routines x 4 register initialisations; + enable-bit-clear, other-MICR-bits and EI-less variants; main programs that are not transparent by construction are left out and counted) the key is pressed before every single clock edge 0..T, and at every ordered pair of edges in a 120-edge window; each run must enter the routine exactly as often as the statement requires, push FR (IE set) and a return address that is a boundary state of the uninterrupted run, have IE clear inside, replay the uninterrupted boundary sequence of the main program, and end with identical registers/flags/SP/outputs/RAM (outside exactly the stack slots written by entry sequences and routines).",
     "Trusted: the classification of a press as 'while enabled' (MICR bit and IE at the press, IE still set at the sampling edge); presses in other windows may enter 0 or 1 times; sampling edges are read from the public Signals + wait latch accessor.",
     "DESIGN.md 3/C04")
 
@@ -59,7 +59,7 @@ add("C03", "exploration",
     "Trusted: REF-PARSE (hand transcription of the documented mrasm language into an own PEG interpreter). Strings outside the enumerated families are outside the verdict.",
     "DESIGN.md 3/C03")
 add("C06", "exploration",
-    "bounded exhaustive enumeration of accepted programs (every .ORG target after every position, images of every size 0..300 by 7 constructions, the C03 families, token mutations) through parse -> compile -> load under a panic monitor; process-level confirmation with the real binary",
+    "bounded exhaustive enumeration of accepted programs (every .ORG target after every position, images of every size 0..300 by 7 constructions x limit directives, every line kind followed by .ORG at the RAM limit, C02's jump/layout/limit families, the C03 families, token mutations) through parse -> compile -> load under a panic monitor; process-level confirmation with the real binary",
     "Every accepted text must survive Translator::compile, Machine::load / new_with_program, 12 steps and the byte-code listing; a cross-section is run through the real `2a-emulator verify` / `run` binary (verify exit 0 implies run does not die by panic). Three panics are known findings and are matched only when REF-ASM's layout class explains them.",
     "Trusted: REF-ASM's layout classification used to key findings (backward .ORG / image > 255 / image 241-255 bytes).",
     "DESIGN.md 3/C06")
@@ -71,36 +71,36 @@ add("C16", "exploration",
     "DESIGN.md 3/C16")
 
 add("C10", "model_checking",
-    "exhaustive enumeration of single operations (256 addresses x 256 values from 3 prior states) and of all 65 536 ordered write-address pairs, plus explicit-state BFS (depth 3/4) over a 129-operation alphabet on the real Bus, lock-step with a map-based reference",
+    "exhaustive enumeration of single operations (256 addresses x 256 values from rich prior states on 3 base buses incl. pending-interrupt ones) and of all 65 536 ordered write-address pairs, plus explicit-state BFS (depth 3/4) over reads, writes (special values) and resets on the real Bus, lock-step with a map-based reference",
     "After every operation all 256 addresses are read and RAM, outputs, MICR key bit and the board are compared with REF-BUS; every read must leave the Bus value unchanged (PartialEq); writes to 0xF0-0xFF never change RAM, 0xEF/0xF0 boundary exact, input registers unaffected by writes, outputs only by 0xFE/0xFF.",
     "Trusted: REF-BUS; the board behind 0xF0-0xF3 is the real Board on the reference side (C14 checks the board); UART/timer registers have no read-back and are only checked not to leak into anything observable.",
     "DESIGN.md 3/C10")
 add("C14", "model_checking",
-    "explicit-state BFS (depth 3/4) over port writes and external setters on the real Bus/Board against REF-BOARD, states deduplicated on the bit-exact reference state; exhaustive enumeration of f32 bit patterns (2^22 quick, all 2^32 thorough) through the three analog setters; all 256 DAC bytes for the fan law",
+    "explicit-state BFS (depth 3/4) over port writes and external setters on the real Bus/Board against REF-BOARD, states deduplicated on the derived Debug of the real board (not on the reference state); threshold sweeps of every analog input through every DAC level in steps down to 1 ulp; exhaustive enumeration of f32 bit patterns (2^22 quick, all 2^32 thorough) through the three analog setters; all 256 DAC bytes for the fan law",
     "After every operation the status registers 0xF0-0xF3 and the getters named in the statement (stored voltages, DAC outputs, UIO directions, interrupt control) equal REF-BOARD: clamping incl. NaN/inf, DAC = byte/100, comparator bits, jumpers, direction-gated UIO pins, edge interrupts raised exactly on the configured transition of the selected source, flip-flop clearing, fan period = 255 - DAC1 byte.",
     "Trusted: REF-BOARD written from the statement; frozen corners listed in refmodel/FROZEN.md (UOR drives status bits regardless of direction; FAN bit; flip-flop independent of IE). Fan rpm is not compared.",
     "DESIGN.md 3/C14")
 
 add("C07", "model_checking",
-    "explicit-state BFS over histories (17 events, depth 6 quick / 9 thorough) of the real Machine, deduplicated on a digest of all observables and hook-visible latches; at every distinct node each reset and each follow-up load is executed on a clone and compared with power-on values, an untouched twin and a fresh machine (lock-step)",
-    "cpu_reset: registers/IR/sequencer/pending latches/bus latch/ALU latch/outputs/MICR/state = power-on, RAM/inputs/board/limits/step mode untouched, timer survives and UCR is cleared (Bus-value differentials), whole-Machine equality against a machine rebuilt from public setters for clean histories; master_reset: additionally inputs, timer and the board's outputs cleared, RAM and board inputs untouched; load: RAM = image + zeros, limits applied, 6 follow-up programs run 300 edges in lock-step with a new machine.",
+    "explicit-state BFS over histories (18 events, depth 7 quick / 10 thorough) of the real Machine, deduplicated on the derived Debug of the whole Machine (so implementation-internal state keeps histories apart); at every distinct node each reset and each follow-up load is executed on a clone and compared with power-on values, an untouched twin and a fresh machine (lock-step)",
+    "cpu_reset: registers/IR/sequencer/pending latches/bus latch/ALU latch/outputs/MICR/state = power-on, RAM/inputs/board/limits/step mode untouched, timer survives and UCR is cleared (Bus-value differentials), whole-Machine equality against a machine rebuilt from public setters for clean histories; master_reset: additionally inputs, timer and the board's outputs cleared, RAM and board inputs untouched; load: RAM = image + zeros, limits applied, load == master reset + image + limits as a whole Machine value; 7 follow-up programs (incl. one that enables every interrupt source and a NOSET program) run 300 edges in lock-step with a new machine; the cpu-side whole-machine comparison is made after every history.",
     "Histories bounded by the depth; MISR and the UART send register are outside the statement and not compared.",
     "DESIGN.md 3/C07")
 
 add("C13", "exploration",
-    "exhaustive enumeration of program heads (all 2^16 two-byte heads x 5 stack sizes x 3 limits; thorough: all 2^24 three-byte heads), of every bus address x value through instructions and direct Bus calls, and of every stimulus sequence to depth 3/4 from 8 program states; oracle: panic monitor (catch_unwind, overflow checks and debug assertions on), machine still readable and steppable",
+    "exhaustive enumeration of program heads (all 2^16 two-byte heads x 5 stack sizes x 3 limits; thorough: all 2^24 three-byte heads), of every bus address x value through instructions and direct Bus calls, of every stimulus sequence to depth 3/4 from 8 program states, and of every stimulus before every clock edge (phase) of 86 interrupt-using and hostile programs incl. ordered pairs of key presses; oracle: panic monitor (catch_unwind, overflow checks and debug assertions on), machine still readable and steppable",
     "Every call into Machine/RawMachine/Bus/Board made by these runs must return; after each event all getters are read and one more clock edge is issued.",
     "Stacksize::NotSet excluded (not one of the five sizes, never installed by load); RAM images beyond head+tail pattern and longer stimulus sequences are outside the verdict.",
     "DESIGN.md 3/C13")
 
 add("C12", "model_checking",
     "exhaustive enumeration of run schedules (program x configuration x every budget 0..40/60 x every sub-multiset of interrupt cycles x every sub-multiset of reset cycles from the boundary sets) on the real RunnerConfig::run against a reference loop over the public Machine API; all expectation subsets x match/mismatch for verify(); stdout and exit status of the real binary per invocation",
-    "emulated_cycles and the whole final Machine (PartialEq) equal REF-RUN's for every schedule; RunExpectations::verify is Ok exactly when every stated field matches and reports a stated mismatching field; the binary prints those cycle/state/FE/FF values, accepts numeric flags in all three radices up to 255, rejects 256/0x100, and exits non-zero exactly on read, parse or verification failure.",
+    "emulated_cycles and the whole final Machine (PartialEq) equal REF-RUN's for every schedule; RunExpectations::verify is Ok exactly when every stated field matches and reports a stated mismatching field; the binary prints those cycle/state/FE/FF values, accepts every byte value in every spelling of the three radices as an input flag and as an expectation, rejects 256/0x100, and exits non-zero exactly on read, parse or verification failure.",
     "Trusted: REF-RUN (the statement's loop); parse/compile are shared with the subject (C02/C03); CLI argument errors only need to exit non-zero without running.",
     "DESIGN.md 3/C12")
 
 add("C17", "model_checking",
-    "explicit-state BFS by replay over key sequences (22-key alphabet, depth 4/5) on the real Tui event dispatch with state deduplication; exhaustive enumeration of terminal sizes and of a command-line family; every key compared with REF-EDIT / REF-CMD and a twin Machine driven by library calls; panic monitor on every transition and render",
+    "exploration of the full tree of key sequences (22-key alphabet, depth 4/5, no merging of states) on the real Tui event dispatch; command pairs, triples and history recall; exhaustive enumeration of terminal sizes and of a command-line family; every key compared with REF-EDIT / REF-CMD and a twin Machine driven by library calls; panic monitor on every transition and render",
     "No key sequence / size makes handle_event or Interface::render panic; cursor and history index stay in range; editing keys behave as REF-EDIT; a submitted line is rejected with a notification or has exactly the effect of the documented command on the machine (PartialEq against the twin), values above 255 and trailing garbage rejected; control keys act as the library calls of the same name.",
     "Trusted: REF-EDIT / REF-CMD; completion results are adopted (only invariants checked); float spellings other than plain decimals are unspecified; crossterm I/O, raw mode and the real-time pacing of Tui::run are outside the check.",
     "DESIGN.md 3/C17")
